@@ -128,6 +128,7 @@ func TestC14(t *testing.T) {
 	rounds := ev.Pick(1, 4)
 	for round := 0; round < rounds; round++ {
 		c14Round(t, rec, round)
+		c14Lend(t, rec, round)
 	}
 	rec.Floor("refusals_checked", 25)
 	rec.Floor("positive_controls_succeeded", 20)
